@@ -91,7 +91,8 @@ def main(families, argv=None):
 class Lcx:
     """Client of the lcx pipeline driver (one persistent process; a crash is reported as the job's outcome)."""
 
-    def __init__(self, flavour='plain'):
+    def __init__(self, flavour='plain', stack_kb=None, job_timeout=300):
+        self.stack_kb, self.job_timeout = stack_kb, job_timeout
         repo = os.environ.get('VERIF_REPO', '/repo')
         tag = ''
         if repo != '/repo':
@@ -104,9 +105,17 @@ class Lcx:
         env = dict(os.environ)
         env.setdefault('ASAN_OPTIONS', 'detect_leaks=0:abort_on_error=0:handle_abort=1:allocator_may_return_null=1')
         env.setdefault('UBSAN_OPTIONS', 'print_stacktrace=1:halt_on_error=1')
-        self.p = subprocess.Popen([self.exe], stdin=subprocess.PIPE, stdout=subprocess.PIPE, stderr=subprocess.PIPE, env=env)
+        pre = None
+        if self.stack_kb:
+            import resource
+            kb = self.stack_kb
 
-    def job(self, j, timeout=300):
+            def pre():
+                resource.setrlimit(resource.RLIMIT_STACK, (kb * 1024, kb * 1024))
+        self.p = subprocess.Popen([self.exe], stdin=subprocess.PIPE, stdout=subprocess.PIPE, stderr=subprocess.PIPE, env=env, preexec_fn=pre)
+
+    def job(self, j, timeout=None):
+        timeout = timeout or self.job_timeout
         if self.p is None or self.p.poll() is not None:
             self._start()
         try:
